@@ -238,8 +238,9 @@ def unpack(value: bytes, size: int | None = None, endian: str = "little", sign: 
         endian: Endianness to use (little, big, network, <, > or !)
         sign: Signedness of the integer.
     """
-    if size and len(value) != size // 8:
-        raise ValueError(f"Invalid byte value, expected {size // 8} bytes, got {len(value)} bytes")
+    # (pack() rounds a bit size up to whole bytes)
+    if size and len(value) != (size + 7) // 8:
+        raise ValueError(f"Invalid byte value, expected {(size + 7) // 8} bytes, got {len(value)} bytes")
     return int.from_bytes(value, ENDIANNESS_MAP.get(endian, endian), signed=sign)
 
 
